@@ -1372,6 +1372,27 @@ def _quant(interp, a: SArr, is_all: bool):
     return SBool(b)
 
 
+@model(np.copy)
+def model_np_copy(interp, args, kwargs, node):
+    # np.copy(a) is a.copy() (other spellings of the same NumPy operation are modelled alongside the one the library uses today, so that
+    # an equivalent respelling in the source stays inside the encoded subset)
+    x = args[0]
+    if isinstance(x, (SArr, VarView)) or builtins.getattr(x, '__class__', None).__name__ == 'SND':
+        return call_method(interp, x, 'copy', [], {}, node)
+    raise OutOfSubset('np.copy of a non-array')
+
+
+@model(np.logical_not)
+def model_np_logical_not(interp, args, kwargs, node):
+    x = args[0]
+    if isinstance(x, SBool):
+        return SBool(z3.Not(x.e))
+    a = _as_sarr(interp, x)
+    if a.dtype != 'bool':
+        raise OutOfSubset('np.logical_not on a non-boolean array')
+    return a.map(lambda t: z3.Not(t), 'bool', tag=('not', a))
+
+
 @model(np.any)
 def model_np_any(interp, args, kwargs, node):
     interp.ctx.use(A('numpy.any_all', 'np.any / np.all of a 1-D boolean array are the bounded existential / universal over its elements'))
